@@ -26,6 +26,13 @@ def handleC15 : List String → String
       let r := tokenize bs
       s!"{b2s (inDomain bs)} {toHex r.2} {toHex (delivered r.1)} {showHexList (answers r.1)} {showSt (openWith bs)} {showSt (negotiateAsIs {} bs)}"
     | none => "bad-op"
+  -- specification only (linear time; for very long openings): `dom pending spec_data spec_replies`
+  | ["spec", h] =>
+    match fromHex h with
+    | some bs =>
+      let r := tokenize bs
+      s!"{b2s (inDomain bs)} {toHex r.2} {toHex (delivered r.1)} {showHexList (answers r.1)}"
+    | none => "bad-op"
   | ["reads", buf, sock, n] =>
     match fromHex buf, hexList sock, n.toNat? with
     | some buf, some sock, some n => showHexList (Conn.reads n ⟨buf, sock⟩)
